@@ -143,7 +143,8 @@ def check_local(rank, dag, partition):
                 if recvs or sends or holders:
                     out.append(_v("comm-node-inside-part", rank,
                                   f"send data of {name}"))
-                if name in n2o and Canon().text(s.data) != Canon().text(n2o[name]):
+                if name in n2o and Canon("content").text(s.data) \
+                        != Canon("content").text(n2o[name]):
                     out.append(_v("send-data-differs-from-named-output", rank,
                                   f"part {pid}: {name}"))
     o_recvs, o_sends, _ = comm_nodes(dag)
@@ -339,7 +340,8 @@ def check_tags(partitions, numbered, next_tags, base_tag):
                     continue
                 for a, b in zip(sa, sb):
                     if a.dest_rank != b.dest_rank or a.data is not b.data and \
-                            Canon().text(a.data) != Canon().text(b.data):
+                            Canon("content").text(a.data) \
+                            != Canon("content").text(b.data):
                         out.append(_v("numbering-changed-send", rank, name))
                     pairs.append(("s", rank, a.dest_rank, a.comm_tag, b.comm_tag))
             for kind, src, dst, symt, intt in pairs:
